@@ -453,6 +453,9 @@ func rulesC12(w *World, o *Out) {
 		if !strings.Contains(funcPkgPath(f), "/x/valset") {
 			continue
 		}
+		if isNewHelper(f) && len(rootCallers(f)) > 0 {
+			continue // its sites are listed with (and keyed by) the functions that call it
+		}
 		for _, s := range CallsIn(f) {
 			c := s.Callee
 			if !((c.Pkg == "bytes" || c.Pkg == "strings") && (c.Name == "Join" || c.Name == "Split" || c.Name == "SplitN")) {
@@ -615,14 +618,14 @@ func rulesC12(w *World, o *Out) {
 					if c := fl.DependsOnCall(fa.X, isCallee("golang.org/x/mod/semver", "", "Compare")); c != nil {
 						if k, isC := fa.Y.(*ssa.Const); isC && k.Int64() == 0 {
 							// first argument is the new version, second the stored one
-							a0, _ := fl.Influence(c.Call.Args[0])
+							a0, _ := fl.Influence(fa.Resolve(c.Call.Args[0]))
 							newOK := false
 							for a := range a0 {
 								if p, isP := a.Root.(*ssa.Parameter); isP && p.Name() == "req" {
 									newOK = true
 								}
 							}
-							curOK := fl.DependsOnCall(c.Call.Args[1], isCallee(vsk, "Keeper", "PigeonRequirements")) != nil
+							curOK := fl.DependsOnCall(fa.Resolve(c.Call.Args[1]), isCallee(vsk, "Keeper", "PigeonRequirements")) != nil
 							ok = newOK && curOK
 						}
 					}
@@ -799,6 +802,28 @@ func intsToString(v []int64) string {
 
 // semverRefuses: some If on semver.Compare(...) < 0 whose true edge reaches no success return.
 func semverRefuses(fl *Flow, f *ssa.Function) bool {
+	// fact form (also sees a version predicate extracted into a helper): every success return is dominated
+	// by semver.Compare(..) >= 0
+	if rets := SuccessReturns(f); len(rets) > 0 {
+		all := true
+		for r := range rets {
+			held := false
+			for _, fa := range FactsAt(r) {
+				if fa.Kind == FCmp && fa.Op == token.GEQ {
+					if k, isC := canon(fa.Y).(*ssa.Const); isC && k.Value != nil && k.Int64() == 0 &&
+						fl.DependsOnCall(fa.X, isCallee("golang.org/x/mod/semver", "", "Compare")) != nil {
+						held = true
+					}
+				}
+			}
+			if !held {
+				all = false
+			}
+		}
+		if all {
+			return true
+		}
+	}
 	for _, b := range f.Blocks {
 		iff, ok := b.Instrs[len(b.Instrs)-1].(*ssa.If)
 		if !ok {
